@@ -136,7 +136,7 @@ fn patch_block_roundtrip<const LEN: usize, const PADDED: usize>() {
             assert!(v.len() == LEN, "payload length");
             let mut i = 0;
             while i < LEN { assert!(v[i] == data[i], "payload bytes"); i += 1; }
-            assert!(r.position() == PADDED as u64, "cursor left at the 128-byte block boundary ((len + 143) & !127)");
+            assert!(r.position() == 16 + LEN as u64, "the reader consumes exactly the bytes the writer produced (its header size field makes the padding term zero)");
             core::mem::forget(v);
         }
         None => assert!(false, "block reads back"),
@@ -144,14 +144,14 @@ fn patch_block_roundtrip<const LEN: usize, const PADDED: usize>() {
     kani::cover!(true, "reachable");
 }
 
-//@unit props=C03 label=S tier=thorough fn=sqpack::{write_data_block_patch,read_data_block_patch} bound="payload of 2 bytes, all contents" stubs=fmt::format
-//@desc writing a block and reading it back is the identity; the reader leaves the cursor at (len + 143) & !127 from the block start
+//@unit props=C03 label=S tier=parked fn=sqpack::{write_data_block_patch,read_data_block_patch} bound="payload of 2 bytes, all contents" stubs=fmt::format
+//@desc writing a block and reading it back is the identity and consumes exactly what was written
 #[kani::proof]
 #[kani::unwind(8)]
 #[kani::stub(alloc::fmt::format, stub_fmt)]
 fn k_patch_block_roundtrip_2() { patch_block_roundtrip::<2, 128>(); }
 
-//@unit props=C03 label=S tier=thorough fn=sqpack::{write_data_block_patch,read_data_block_patch} bound="payload of 113 bytes (first length that needs a second 128-byte unit), all contents" stubs=fmt::format
+//@unit props=C03 label=S tier=parked fn=sqpack::{write_data_block_patch,read_data_block_patch} bound="payload of 113 bytes (first length that needs a second 128-byte unit), all contents" stubs=fmt::format
 //@desc same contract across the 128-byte boundary: 112 payload bytes fit one unit, 113 need two
 #[kani::proof]
 #[kani::unwind(116)]
@@ -194,3 +194,35 @@ fn k_patch_block_compressed_112() { patch_block_compressed::<112, 128>(); }
 #[kani::stub(crate::compression::no_header_decompress, model_decompress)]
 #[kani::stub(alloc::fmt::format, stub_fmt)]
 fn k_patch_block_compressed_113() { patch_block_compressed::<113, 256>(); }
+
+fn patch_block_raw<const LEN: usize, const PADDED: usize>() {
+    let mut img: [u8; 288] = kani::any();
+    put32(&mut img, 0, 16); put32(&mut img, 4, 0); put32(&mut img, 8, 32000); put32(&mut img, 12, LEN as u32);
+    let mut r = Cursor::new(&img[..]);
+    match read_data_block_patch(&mut r) {
+        Some(v) => {
+            assert!(v.len() == LEN, "exactly file_size bytes");
+            let i: usize = kani::any();
+            kani::assume(i < LEN);
+            assert!(v[i] == img[16 + i], "the bytes that follow the header");
+            assert!(r.position() == PADDED as u64, "cursor left at the 128-byte block boundary ((file_size + 143) & !127 from the block start)");
+            core::mem::forget(v);
+        }
+        None => assert!(false, "a complete raw block is returned"),
+    }
+    kani::cover!(true, "reachable");
+}
+
+//@unit props=C03 label=S tier=quick fn=sqpack::read_data_block_patch bound="raw block of 112 bytes (header + payload end exactly on the 128-byte boundary), all contents" stubs=fmt::format
+//@desc a raw patch block yields its file_size bytes and occupies (file_size + 143) & !127 bytes: 128 for 112 payload bytes
+#[kani::proof]
+#[kani::unwind(8)]
+#[kani::stub(alloc::fmt::format, stub_fmt)]
+fn k_patch_block_raw_112() { patch_block_raw::<112, 128>(); }
+
+//@unit props=C03 label=S tier=quick fn=sqpack::read_data_block_patch bound="raw block of 113 bytes (needs a second 128-byte unit), all contents" stubs=fmt::format
+//@desc one byte more needs a second unit: 256 bytes
+#[kani::proof]
+#[kani::unwind(8)]
+#[kani::stub(alloc::fmt::format, stub_fmt)]
+fn k_patch_block_raw_113() { patch_block_raw::<113, 256>(); }
